@@ -23,13 +23,20 @@ import (
 	"verifharness/hx"
 )
 
-// c05.retry  kind robin keyhex hosts maxConns maxFails tryDuration interval failTimeout bodyLen framing
+// c05.retry  kind robin keyhex hosts maxConns maxFails tryDuration interval failTimeout bodyLen framing events
 //   framing  cl: Content-Length = bodyLen (0 = http.NoBody) | chunked: ContentLength -1, TransferEncoding chunked, non-nil Body
 //            (what net/http hands a handler for a chunked upload, also when the body turns out empty) | nil: Body nil
-//   hosts  comma list of u/c/script : u 1 = marked unhealthy; c = in-flight count before the request;
+//   hosts  comma list of u/c/script[/f] : the state of the backend WHEN THE REQUEST ARRIVES: u 1 = marked unhealthy;
+//          c = in-flight count of other requests; f = failures already on record (Fails; they do not expire while the
+//          request is served; default 0; f >= max_fails = the backend is out of rotation);
 //          script = outcome of the successive attempts on that host, last repeats:
 //          K answers, H fails before reading the body and a health-check pass that finds every backend alive runs
 //          before the next Select (a flapping backend: passes /health, fails requests), F fails before reading the body, R fails after reading it, C context.Canceled, T ErrMaxBytesExceeded
+//   events - or comma list of a>j=u/c/f : the state of backends changes while the request is served: when attempt
+//          number a of the request (0-based, counted over all backends) starts (inside its RoundTrip), backend j is given
+//          health flag u, c in-flight requests of others and f failures on record — a backend that comes back into
+//          rotation (health check passed, failure expired, connection slot freed) or goes away between two attempts.
+//          A case of 11 fields has no events.
 //   durations in milliseconds
 //   out    <ok|502|499|413> TAB <host:body,...>   body = none|full|empty|partial|unread
 //
@@ -38,10 +45,54 @@ import (
 // Only timing-insensitive cases are generated: an attempt is instantaneous, recorded failures outlive the loop
 // (fail_timeout >> try_duration) or are not recorded at all with try_duration = 0.
 
+// the part of a backend's state that belongs to other requests / the health checker
+type c05HostState struct {
+	u bool
+	c int64
+	f int32
+}
+
+type c05RetryEvent struct {
+	at, host int
+	st       c05HostState
+}
+
+// shared by the transports of one case; guarded by the transports' mutex
+type c05RetryEnv struct {
+	pool     []*proxy.UpstreamHost
+	cur      []c05HostState // what the case (arrival) and the events so far have given each backend
+	events   []c05RetryEvent
+	attempts int
+	fired    int
+}
+
+// the events of the attempt that starts now; counters are moved by the difference, so the request's own
+// in-flight count and recorded failures stay what the proxy made them
+func (e *c05RetryEnv) attemptStarts() {
+	n := e.attempts
+	e.attempts++
+	for _, ev := range e.events {
+		if ev.at != n || ev.host < 0 || ev.host >= len(e.pool) {
+			continue
+		}
+		h, cur := e.pool[ev.host], &e.cur[ev.host]
+		var u int32
+		if ev.st.u {
+			u = 1
+		}
+		atomic.StoreInt32(&h.Unhealthy, u)
+		atomic.AddInt64(&h.Conns, ev.st.c-cur.c)
+		atomic.AddInt32(&h.Fails, ev.st.f-cur.f)
+		*cur = ev.st
+		e.fired++
+	}
+}
+
 type c05RetryTransport struct {
+	env *c05RetryEnv
 	// afterFail: the health-check worker runs a pass (every backend passes its probe) once this
 	// attempt's failure has been recorded, i.e. during the try_interval sleep before the next Select
-	afterFail func()
+	afterFail func(failsBefore int32)
 	start     *time.Time
 	stamps *[]time.Duration
 	idx    int
@@ -55,6 +106,9 @@ type c05RetryTransport struct {
 func (t *c05RetryTransport) RoundTrip(req *http.Request) (*http.Response, error) {
 	t.mu.Lock()
 	defer t.mu.Unlock()
+	if t.env != nil {
+		t.env.attemptStarts()
+	}
 	n := t.calls
 	t.calls++
 	o := byte('K')
@@ -91,7 +145,7 @@ func (t *c05RetryTransport) RoundTrip(req *http.Request) (*http.Response, error)
 			Body: io.NopCloser(strings.NewReader("ok")), ContentLength: 2, Request: req}, nil
 	case 'H':
 		if t.afterFail != nil {
-			go t.afterFail()
+			go t.afterFail(atomic.LoadInt32(&t.env.pool[t.idx].Fails))
 		}
 	case 'C':
 		return nil, context.Canceled
@@ -105,12 +159,34 @@ func (t *c05RetryTransport) RoundTrip(req *http.Request) (*http.Response, error)
 // in the loop is a sleep of try_interval and attempts are instantaneous, so every attempt should start a little
 // after a multiple of try_interval; a run in which one starts more than 60 ms late (machine under load) is not
 // a faithful replay of the abstract-time model and is repeated (up to five times).
+//
+// Cases with events and a short window (try_duration < 1 s; the ones that may end with nobody in rotation, so that the
+// loop waits for the window to pass) expect every attempt within a few try_intervals of 1 ms after the arrival; a run
+// in which an attempt starts later than a third of the window is repeated likewise.
 func c05RetryEval(f []string) (string, []string) {
+	if len(f) == 11 {
+		f = append(append([]string{}, f...), "-")
+	}
 	out, tags, stamps := c05RetryOnce(f)
-	if len(f) != 11 {
+	if len(f) != 12 {
 		return out, tags
 	}
 	interval, _ := strconv.Atoi(f[7])
+	if window, _ := strconv.Atoi(f[6]); interval < 150 && f[11] != "-" && window > 0 && window < 1000 {
+		for try := 0; try < 5; try++ {
+			late := false
+			for _, st := range stamps {
+				if st > time.Duration(window)*time.Millisecond/3 {
+					late = true
+				}
+			}
+			if !late {
+				return out, tags
+			}
+			out, tags, stamps = c05RetryOnce(f)
+		}
+		return "timing-unreliable\t" + out, append(tags, "timing-unreliable")
+	}
 	if interval < 150 {
 		return out, tags
 	}
@@ -142,7 +218,10 @@ func c05RetryRun(f []string) (string, []string, []time.Duration) {
 }
 
 func c05RetryEvalAt(f []string, start *time.Time, stamps *[]time.Duration) (string, []string) {
-	if len(f) != 11 {
+	if len(f) == 11 {
+		f = append(append([]string{}, f...), "-")
+	}
+	if len(f) != 12 {
 		return "bad-case", nil
 	}
 	framing := f[10]
@@ -174,9 +253,23 @@ func c05RetryEvalAt(f []string, start *time.Time, stamps *[]time.Duration) (stri
 	var mu sync.Mutex
 	var log []string
 	anyUnhealthy, anyFail := false, false
+	env := &c05RetryEnv{pool: pool, cur: make([]c05HostState, len(pool))}
+	if f[11] != "-" && f[11] != "" {
+		for _, es := range strings.Split(f[11], ",") {
+			var ev c05RetryEvent
+			var u int
+			if n, err := fmt.Sscanf(es, "%d>%d=%d/%d/%d", &ev.at, &ev.host, &u, &ev.st.c, &ev.st.f); n != 5 || err != nil || ev.at < 0 || ev.host < 0 || ev.st.c < 0 || ev.st.f < 0 {
+				return "bad-case", nil
+			}
+			ev.st.u = u != 0
+			env.events = append(env.events, ev)
+		}
+	}
+	outAtArrival := make([]bool, len(hosts))
+	nOut := 0
 	for i, hs := range hosts {
 		p := strings.Split(hs, "/")
-		if len(p) != 3 {
+		if len(p) != 3 && len(p) != 4 {
 			return "bad-case", nil
 		}
 		c, _ := strconv.ParseInt(p[1], 10, 64)
@@ -185,15 +278,28 @@ func c05RetryEvalAt(f []string, start *time.Time, stamps *[]time.Duration) (stri
 			atomic.StoreInt32(&pool[i].Unhealthy, 1)
 			anyUnhealthy = true
 		}
+		var fails int64
+		if len(p) == 4 {
+			var err error
+			if fails, err = strconv.ParseInt(p[3], 10, 32); err != nil || fails < 0 {
+				return "bad-case", nil
+			}
+			atomic.StoreInt32(&pool[i].Fails, int32(fails))
+		}
+		env.cur[i] = c05HostState{u: p[0] != "0", c: c, f: int32(fails)}
+		if !pool[i].Available() {
+			outAtArrival[i] = true
+			nOut++
+		}
 		if strings.ContainsAny(p[2], "FRH") {
 			anyFail = true
 		}
 		host := pool[i]
-		pool[i].ReverseProxy.Transport = &c05RetryTransport{idx: i, script: p[2], want: body, mu: &mu, log: &log, start: start, stamps: stamps,
-			afterFail: func() {
+		pool[i].ReverseProxy.Transport = &c05RetryTransport{env: env, idx: i, script: p[2], want: body, mu: &mu, log: &log, start: start, stamps: stamps,
+			afterFail: func(failsBefore int32) {
 				// wait until the loop has recorded the failure, then let the real health check run once
 				deadline := time.Now().Add(time.Second)
-				for atomic.LoadInt32(&host.Fails) == 0 && time.Now().Before(deadline) {
+				for atomic.LoadInt32(&host.Fails) <= failsBefore && time.Now().Before(deadline) {
 					time.Sleep(50 * time.Microsecond)
 				}
 				proxy.VerifHealthCheck(up)
@@ -256,6 +362,11 @@ func c05RetryEvalAt(f []string, start *time.Time, stamps *[]time.Duration) (stri
 	mu.Lock()
 	out := res + "\t" + strings.Join(log, ",")
 	nAttempts := len(log)
+	fired := env.fired
+	lastHost := -1
+	if nAttempts > 0 {
+		lastHost, _ = strconv.Atoi(strings.SplitN(log[nAttempts-1], ":", 2)[0])
+	}
 	mu.Unlock()
 	tags := []string{kind, fmt.Sprintf("n=%d", len(hosts)), "result=" + res}
 	if nAttempts > 1 {
@@ -267,7 +378,22 @@ func c05RetryEvalAt(f []string, start *time.Time, stamps *[]time.Duration) (stri
 	if anyUnhealthy {
 		tags = append(tags, "some-unhealthy")
 	}
-	if !anyFail && !anyUnhealthy {
+	if nOut > 0 {
+		tags = append(tags, "some-out-at-arrival")
+	}
+	if len(hosts) > 1 && nOut == len(hosts)-1 {
+		tags = append(tags, "one-selectable-at-arrival")
+	}
+	if fired > 0 {
+		tags = append(tags, "state-changed-during-request")
+	}
+	if status == 0 && lastHost >= 0 && outAtArrival[lastHost] {
+		tags = append(tags, "answered-by-returned-backend")
+		if bodyLen > 0 && nAttempts > 1 {
+			tags = append(tags, "body-resent-to-returned-backend")
+		}
+	}
+	if !anyFail && !anyUnhealthy && nOut == 0 && fired == 0 {
 		tags = append(tags, "trivial-all-fine")
 	}
 	return out, tags
@@ -293,9 +419,16 @@ func c05RetryGen(g *hx.Gen) {
 	r := g.Rng
 	kinds := []string{"first", "round_robin", "ip_hash", "uri_hash"}
 	keys := map[string][]string{"first": {""}, "round_robin": {""}, "ip_hash": {"10.0.0.1", "10.0.0.2", "192.168.7.33"}, "uri_hash": {"/", "/a/b?c=d", "/k"}}
-	emitF := func(framing, kind string, robin int, key string, hosts []string, mc, mf, d, i, f, blen int) {
+	emitE := func(framing, kind string, robin int, key string, hosts []string, mc, mf, d, i, f, blen int, events []string) {
+		ev := "-"
+		if len(events) > 0 {
+			ev = strings.Join(events, ",")
+		}
 		g.Case(kind, strconv.Itoa(robin), hx.HS(key), strings.Join(hosts, ","), strconv.Itoa(mc), strconv.Itoa(mf),
-			strconv.Itoa(d), strconv.Itoa(i), strconv.Itoa(f), strconv.Itoa(blen), framing)
+			strconv.Itoa(d), strconv.Itoa(i), strconv.Itoa(f), strconv.Itoa(blen), framing, ev)
+	}
+	emitF := func(framing, kind string, robin int, key string, hosts []string, mc, mf, d, i, f, blen int) {
+		emitE(framing, kind, robin, key, hosts, mc, mf, d, i, f, blen, nil)
 	}
 	emitN := 0
 	// the framing of the request body cycles through known length / unknown length (chunked upload)
@@ -443,6 +576,188 @@ func c05RetryGen(g *hx.Gen) {
 		for _, blen := range []int{0, 10, 40000} {
 			emit("first", 0, "", []string{"0/0/" + sc}, 0, 3, D, I, F, blen)
 		}
+	}
+	// 5. backends out of rotation WHEN THE REQUEST ARRIVES (unhealthy / max_fails failures on record / at max_conns) and
+	//    coming back — or going away — while it is served (events). max_conns is 2 throughout.
+	const MC = 2
+	// a backend's arrival state: 0 in rotation, 1 unhealthy, 2 failed (max_fails on record), 3 full
+	hostAt := func(state int, script string, mf int) string {
+		switch state {
+		case 1:
+			return "1/0/" + script
+		case 2:
+			return "0/0/" + script + "/" + strconv.Itoa(mf)
+		case 3:
+			return "0/" + strconv.Itoa(MC) + "/" + script
+		}
+		return "0/0/" + script
+	}
+	back := func(at, host int) string { return fmt.Sprintf("%d>%d=0/0/0", at, host) }
+	away := func(at, host, how, mf int) string {
+		switch how % 3 {
+		case 0:
+			return fmt.Sprintf("%d>%d=1/0/0", at, host)
+		case 1:
+			return fmt.Sprintf("%d>%d=0/0/%d", at, host, mf)
+		}
+		return fmt.Sprintf("%d>%d=0/%d/0", at, host, MC)
+	}
+	// a backend that is in rotation from the arrival to the end and always answers: the request is answered (theorem
+	// C05_retry_reaches_healthy), the long window costs nothing; without one the loop may have to wait for the window
+	window := func(hosts, events []string) int {
+		for i, h := range hosts {
+			if h != "0/0/K" && h != "0/1/K" {
+				continue
+			}
+			touched := false
+			for _, e := range events {
+				if strings.Contains(e, fmt.Sprintf(">%d=", i)) {
+					touched = true
+				}
+			}
+			if !touched {
+				return D
+			}
+		}
+		return 150
+	}
+	// 5a. exactly one backend selectable at arrival; it fails during the request (after reading the body / before / it is
+	//     retried itself with max_fails 2); a healthy backend comes back while an attempt on the first one is running
+	//     (attempt 0, or the last attempt before the first one is marked down); a third one stays away or comes back failing
+	n5 := 0
+	for _, n := range []int{2, 3} {
+		for a := 0; a < n; a++ {
+			for _, sc := range []string{"R", "F", "RK", "RF"} {
+				for outState := 1; outState <= 3; outState++ {
+					for _, mf := range []int{1, 2} {
+						for _, late := range []bool{false, true} {
+							for third := 0; third < 3; third++ {
+								if n == 2 && third > 0 || late && mf == 1 {
+									continue
+								}
+								for ki, kind := range kinds {
+									n5++
+									if !g.Thorough() && (n5+ki)%3 != 0 {
+										continue
+									}
+									hosts := make([]string, n)
+									var events []string
+									b := (a + 1) % n
+									e := 0
+									if late {
+										e = mf - 1
+									}
+									for i := range hosts {
+										switch {
+										case i == a:
+											hosts[i] = hostAt(0, sc, mf)
+										case i == b:
+											hosts[i] = hostAt(outState, "K", mf)
+											events = append(events, back(e, i))
+										default:
+											hosts[i] = hostAt(1+(outState+third)%3, "R", mf)
+											if third == 2 {
+												events = append(events, back(0, i))
+											}
+										}
+									}
+									framing := "cl"
+									if n5%2 == 0 {
+										framing = "chunked"
+									}
+									blen := []int{1000, 1, 70000}[n5%3]
+									emitE(framing, kind, n5%(n+1), keys[kind][n5%len(keys[kind])], hosts, MC, mf, D, I, F, blen, events)
+								}
+							}
+						}
+					}
+				}
+			}
+		}
+	}
+	// 5b. exhaustive, two backends: each in rotation / unhealthy / failed / full at arrival x script K / R / F; a backend
+	//     that is out comes back never / during attempt 0 / during attempt 1; one that is in rotation stays or goes away
+	//     during attempt 0; max_fails 1, 2; first and round_robin
+	for s0 := 0; s0 < 4; s0++ {
+		for s1 := 0; s1 < 4; s1++ {
+			for _, sc0 := range []string{"K", "R", "F"} {
+				for _, sc1 := range []string{"K", "R", "F"} {
+					for e0 := 0; e0 < 3; e0++ {
+						for e1 := 0; e1 < 3; e1++ {
+							if s0 != 0 && s1 != 0 && (sc0 != "K" || sc1 != "K" || e0 > 1 || e1 > 1) {
+								continue // nobody in rotation: no attempt, scripts and events play no part
+							}
+							if s0 == 0 && e0 == 2 || s1 == 0 && e1 == 2 {
+								continue
+							}
+							for _, mf := range []int{1, 2} {
+								for ki, kind := range []string{"first", "round_robin"} {
+									n5++
+									if !g.Thorough() && (n5+ki)%2 != 0 {
+										continue
+									}
+									hosts := []string{hostAt(s0, sc0, mf), hostAt(s1, sc1, mf)}
+									var events []string
+									for i, se := range [][2]int{{s0, e0}, {s1, e1}} {
+										switch {
+										case se[0] == 0 && se[1] == 1:
+											events = append(events, away(0, i, n5, mf))
+										case se[0] != 0 && se[1] > 0:
+											events = append(events, back(se[1]-1, i))
+										}
+									}
+									framing := "cl"
+									if n5%2 == 0 {
+										framing = "chunked"
+									}
+									emitE(framing, kind, n5%3, "", hosts, MC, mf, window(hosts, events), I, F, 1000, events)
+								}
+							}
+						}
+					}
+				}
+			}
+		}
+	}
+	// 5c. seeded random: 2..4 backends in random arrival states (also one failure short of max_fails, one slot short of
+	//     max_conns), flaky scripts, up to three random changes of state during attempts 0..3, every policy
+	N5 := 300
+	if g.Thorough() {
+		N5 = 5000
+	}
+	for it := 0; it < N5; it++ {
+		n := 2 + r.Intn(3)
+		mf := 1 + r.Intn(3)
+		randState := func() (u, c, f int) {
+			switch r.Intn(7) {
+			case 0:
+				return 1, 0, 0
+			case 1:
+				return 0, MC, 0
+			case 2:
+				return 0, 0, mf
+			case 3:
+				return 0, MC - 1, mf - 1
+			}
+			return 0, 0, 0
+		}
+		hosts := make([]string, n)
+		for i := range hosts {
+			u, c, f := randState()
+			hosts[i] = fmt.Sprintf("%d/%d/%s/%d", u, c, hx.Pick(r, []string{"K", "K", "F", "R", "FK", "RK", "RRK", "KF"}), f)
+			if f == 0 {
+				hosts[i] = hosts[i][:len(hosts[i])-2]
+			}
+		}
+		var events []string
+		for k := r.Intn(4); k > 0; k-- {
+			u, c, f := randState()
+			events = append(events, fmt.Sprintf("%d>%d=%d/%d/%d", r.Intn(4), r.Intn(n), u, c, f))
+		}
+		kind := hx.Pick(r, kinds)
+		framing := hx.Pick(r, []string{"cl", "chunked"})
+		blen := hx.Pick(r, []int{0, 1, 1000, 32 * 1024, 70000})
+		emitE(framing, kind, r.Intn(6), hx.Pick(r, keys[kind]), hosts, MC, mf, window(hosts, events), I, F, blen, events)
 	}
 }
 
